@@ -32,7 +32,7 @@ class MemcacheLike(Exception):
 
 
 def make_client_class(env, addr2id):
-    from pymemcache.exceptions import MemcacheUnknownError
+    from pymemcache.exceptions import MemcacheServerError, MemcacheUnknownError
 
     class ScriptedClient:
         def __init__(self, server, **kw):
@@ -48,7 +48,12 @@ def make_client_class(env, addr2id):
                 env.events.append({"e": "contact", "s": self.sid, "k": kid, "ok": True, "os": False, "x": 0})
                 return result
             env.xid += 1
-            exc = ConnectionResetError("down %d" % env.xid) if h == "os" else MemcacheUnknownError("bad %d" % env.xid)
+            if h == "os":
+                exc = ConnectionResetError("down %d" % env.xid)
+            elif env.xid % 2:
+                exc = MemcacheServerError("out of memory storing object %d" % env.xid)    # an error line the server ANSWERED with
+            else:
+                exc = MemcacheUnknownError("bad %d" % env.xid)
             if env.xid % 4 == 0 and h == "os":
                 import socket
                 exc = socket.timeout("timed out %d" % env.xid)
